@@ -68,6 +68,29 @@ RadNoneMissing(lt, c, res) == WithinClass(lt, c) \subseteq SeqRange(res)
 RadNoneExtra(lt, c, res)   == SeqRange(res) \subseteq WithinClass(lt, c)
 IsWithinRadius(lt, c, res) == RadShape(Len(lt), res) /\ RadNoneMissing(lt, c, res) /\ RadNoneExtra(lt, c, res)
 
+(* ---- the radii a case is queried with (generated here, boundary radii included) ------ *)
+\* "zero"     r = 0 exactly: nothing but elements coincident with q may be returned; they MUST be
+\*            returned when the caller passes the element's own stored coordinates (own = TRUE),
+\*            otherwise a last-bit difference of the presentation may exclude them
+\* "tiny"     r = 1e-9 in the unit of the call: exactly the coincident elements
+\* "between"  r strictly between distance classes c and c+1 (c = -1: below the first class);
+\*            equality with an inter-point distance is not fixed by the property and not generated
+\* "beyond"   r larger than any possible distance (more than half a turn of great circle,
+\*            more than the diameter for chords): every element
+ZeroSet(q, S)   == { e - 1 : e \in { f \in Idx(S) : SameDir(q, S[f]) } }
+RadiusPlan(lt)  == << [ t |-> "zero" ], [ t |-> "tiny" ] >>
+                   \o [ i \in 1..(NClasses(lt) + 1) |-> [ t |-> "between", c |-> i - 2 ] ]
+                   \o << [ t |-> "beyond" ] >>
+\* what must be in the answer (Lo) and what may be (Hi)
+RadLo(lt, z, all, rk, c, own) == CASE rk = "zero"    -> IF own THEN z ELSE {}
+                                   [] rk = "tiny"    -> z
+                                   [] rk = "between" -> WithinClass(lt, c)
+                                   [] rk = "beyond"  -> all
+RadHi(lt, z, all, rk, c)      == CASE rk = "zero"    -> z
+                                   [] rk = "tiny"    -> z
+                                   [] rk = "between" -> WithinClass(lt, c)
+                                   [] rk = "beyond"  -> all
+
 (* ---- descriptors for the numeric side ---------------------------------------------- *)
 \* great-circle distance q--S[e] = atan2(sqrt(num), dot); chord = 2 sin(angle / 2)
 DistDescr(q, S) == [ e \in Idx(S) |-> GeoDescr(q, S[e]) ]
